@@ -528,6 +528,7 @@ func genTTL(seed uint64, run int) *Case {
 	g := &gen{r: r}
 	g.p = seqProfile{maxCols: 3, pMerge: 0.2}
 	cs := &Case{Prop: "C17", World: "ttl", Seed: seed, Run: run}
+	g.cs = cs
 	cs.Cfg.Capacity = []int{64, 1024, 20000}[r.Intn(3)]
 	cs.Cfg.Avoid = knownAvoid("C17", seed, run).list()
 	interval := []time.Duration{time.Millisecond, 10 * time.Millisecond, 100 * time.Millisecond, time.Second, 10 * time.Second}[r.Intn(5)]
@@ -566,6 +567,7 @@ func genTTL(seed uint64, run int) *Case {
 	cs.Strategy = strategies[r.Intn(len(strategies))]
 	cs.SchedSeed = r.Uint64()
 	ttls := []time.Duration{interval / 2, interval, interval + interval/2, 2 * interval, 5 * interval, 100 * interval, time.Hour}
+	vr := NewRng(seed, uint64(run), 84) // API flavour of the time-to-live writes (own stream)
 	insertFlavour := run%3 == 2
 	if insertFlavour {
 		// insert flavour: threads insert rows with and without a time-to-live, delete and read
@@ -592,6 +594,7 @@ func genTTL(seed uint64, run int) *Case {
 						if r.Chance(0.6) {
 							op.Writes = append(op.Writes, Write{TTL: int64(ttls[r.Intn(len(ttls))])})
 						}
+						_ = vr
 						t.Ops = append(t.Ops, op)
 					case pick < 8:
 						t.Ops = append(t.Ops, Op{Kind: "delete", Target: Target{Mode: "own-nottl", K: r.Intn(16)}})
@@ -606,7 +609,10 @@ func genTTL(seed uint64, run int) *Case {
 				never := k%3 == 0
 				switch pick := r.Intn(10); {
 				case pick < 4 && !never:
-					op.Writes = append(op.Writes, Write{TTL: int64(ttls[r.Intn(len(ttls))])})
+					op.Writes = append(op.Writes, Write{TTL: int64(ttls[r.Intn(len(ttls))]), Via: vr.Intn(2)})
+					if op.Writes[len(op.Writes)-1].Via == 1 {
+						op.Yield = true // reads with yields between obtaining the accessor and using it
+					}
 				case pick < 6 && !never:
 					op.Writes = append(op.Writes, Write{Extend: int64(ttls[r.Intn(len(ttls))])})
 				case pick < 7 && !never:
@@ -640,6 +646,7 @@ func genRace(seed uint64, run int) *Case {
 	g := &gen{r: r}
 	g.p = seqProfile{maxCols: 6, pMerge: 0.3, pKeyCol: 0.15}
 	cs := &Case{Prop: "C18", World: "race", Seed: seed, Run: run}
+	g.cs = cs
 	cs.Cfg.Capacity = []int{1, 64, 1024, 20000}[r.Intn(4)]
 	av := knownAvoid("C18", seed, run)
 	g.av = av
@@ -790,7 +797,11 @@ func genRace(seed uint64, run int) *Case {
 				case "snapshot":
 					t.Ops = append(t.Ops, Op{Kind: []string{"snapshot", "snapshot", "restore"}[r.Intn(3)]})
 				case "indexer":
-					t.Ops = append(t.Ops, Op{Kind: []string{"mkindex", "mkindex", "mktrigger"}[r.Intn(3)], Col: colName()})
+					op := Op{Kind: []string{"mkindex", "mkindex", "mktrigger"}[r.Intn(3)], Col: colName()}
+					if ir := NewRng(seed, uint64(run), uint64(ti*64+x*8+o), 82); op.Kind == "mkindex" && len(g.indexes) > 0 && ir.Chance(0.3) {
+						op.Name = g.indexes[ir.Intn(len(g.indexes))].Name // unusual input: an index over an index
+					}
+					t.Ops = append(t.Ops, op)
 				}
 			}
 			if role == "writer" && r.Chance(0.1) {
